@@ -22,7 +22,8 @@ actually looked up:
 * `wildcardQname`     the same when `n` itself starts with `*` (`inner_lookup_wildcard` refuses
                       to expand such a query name).
 
-Per query: `referralAA`, `nsAnyBelowCut`, `soaBelowCut`, `cnameIntoCut`, `anyNotAtOwner`.
+Per query: `cnameIntoCut`, `anyNotAtOwner`.  (The former classes `referral-aa`, `ns-any-below-cut`,
+`soa-below-cut` were repaired in /repo af8bb96; their replays are regression cases.)
 -/
 import HickoryVerif.Model.AuthZone
 import HickoryVerif.Spec.Rfc1034
@@ -86,20 +87,6 @@ def WildcardGap (z : Zone) (o : LName) (q : Query) : Bool :=
 
 def NestedCut (z : Zone) (o : LName) (q : Query) : Bool :=
   (visitedOf z o q).any fun n => nestedCutAt z o n (effType z q)
-
-/-- the query name is at or below a zone cut: the answer is a referral, and
-`build_authoritative_response` sets AA all the same -/
-def referralAA (z : Zone) (o : LName) (q : Query) : Bool :=
-  isAncestorOrSelf o q.name && !noCut z o q.name (effType z q)
-
-/-- NS / ANY query at or below a cut: `is_referral` is false for these types, the NS RRset of the
-cut is put into the answer section -/
-def nsAnyBelowCut (z : Zone) (o : LName) (q : Query) : Bool :=
-  referralAA z o q && (q.type == T_NS || q.type == T_ANY)
-
-/-- SOA query at or below a cut: the apex NS RRset is appended to the referral -/
-def soaBelowCut (z : Zone) (o : LName) (q : Query) : Bool :=
-  referralAA z o q && q.type == T_SOA
 
 /-- a CNAME target followed lies at or below a zone cut: `chase_cnames` appends the NS RRset of
 the cut to the chain, i.e. to the answer section -/
